@@ -60,10 +60,11 @@ PANIC_LEDGER = {
     ("utils::environment::RawEnvironment::<T, CC, SC, VC>::remove_variable_block", "assert"): "C10.1 / C14.1: scopes are balanced",
     ("utils::environment::VariableBlock::<VC>::get_variable", "assert"): "only called after the lookup found the symbol in that block",
 }
+# per (method, error type), program-wide count: moving the call into a closure or another function changes nothing
 RESULT_LEDGER = {
-    ("<utils::writers::StdoutWriter as utils::writers::LogWriter>::write_messages", "expect", "std::io::Error"): "environment fault (stdout closed), outside the property's quantifier",
-    ("<utils::writers::StdoutWriter as utils::writers::ReportWriter>::write_reports", "expect", "codespan_reporting::files::Error"): "only for an invalid label: C04 (labels in range, file ids from the library)",
-    ("control_flow_graph::ssa_impl::update_declarations", "expect", "anyhow::Error"): "NonEmptyVec from a version range that is never empty (unwrap_or(0..1))",
+    ("expect", "std::io::Error"): (1, "StdoutWriter::write_messages: environment fault (stdout closed), outside the property's quantifier"),
+    ("expect", "codespan_reporting::files::Error"): (1, "StdoutWriter::write_reports: only for an invalid label: C04 (labels in range, file ids from the library)"),
+    ("expect", "anyhow::Error"): (1, "update_declarations: NonEmptyVec from a version range that is never empty (unwrap_or(0..1))"),
 }
 
 # C01.11: indexing that can go out of bounds (`v[i]`, `v[a..]`, `map[&k]`), hand-written code reachable from main, counted
@@ -198,9 +199,10 @@ def rule_ledger(ctx):
             if m:
                 et = t["gargs"][1] if len(t["gargs"]) > 1 else "?"
                 if any(e in et for e in REPO_ERRORS):
-                    k = (fn["pretty"], m.group(1), et)
+                    k = (m.group(1), et)
                     rsites[k] += 1
                     where[k] = (fn["file"], t["line"])
+                    where[("fn",) + k] = fn["pretty"]
     ctx.table("panic sites", ["%dx %s [%s]" % (v, k[0], k[1]) for k, v in sorted(psites.items())])
     for k, v in sorted(psites.items()):
         ent = PANIC_LEDGER.get(k)
@@ -210,7 +212,8 @@ def rule_ledger(ctx):
     ctx.floor(R2, "ledgered panic sites present", len(PANIC_LEDGER) - len(stale), 20)
     for k, v in sorted(rsites.items()):
         ent = RESULT_LEDGER.get(k)
-        ctx.check(R1, "%s/%s<%s>" % k, ent is not None, ("reviewed: " + ent) if ent else "a Result carrying the repository's error type %s is unwrapped: the error that says `bad input` becomes a panic" % k[2], where[k])
+        ok1 = ent is not None and v <= ent[0]
+        ctx.check(R1, "Result::%s<%s>" % k, ok1, ("%d site(s), reviewed %d: %s" % (v, ent[0], ent[1])) if ok1 else "a Result carrying the repository's error type %s is unwrapped (found %d, reviewed %d; last in %s): the error that says `bad input` becomes a panic" % (k[1], v, ent[0] if ent else 0, where[("fn",) + k]), where[k])
     ctx.floor(R1, "ledgered unwrap sites present", sum(1 for k in RESULT_LEDGER if k in rsites), 3)
     # every function that returns a repo Result: is it consumed somewhere by unwrap in generated code? (grammar handled by C01.4)
 
